@@ -92,13 +92,16 @@ def run(chk):
         return s
 
     # ---------------- ODE and stationary (argsort tail)
-    for kind, system in (('ode', False), ('ode', True), ('statio', False), ('statio', True)):
+    for kind, system, het in (('ode', False, False), ('ode', True, False), ('statio', False, False), ('statio', True, False),
+                              ('ode', False, True), ('statio', False, True)):
         cfg = {"generator": kind, "loss": "system" if system else "single"}
+        if het:
+            cfg["heterogeneous_parameter"] = "nu"
         holder = {}
 
-        def get(kind=kind, system=system, holder=holder):
+        def get(kind=kind, system=system, holder=holder, het=het):
             if 's' not in holder:
-                s = setup(kind, system=system)
+                s = setup(kind, system=system, het=het)
                 holder['s'] = s
                 holder['new'] = s.step_true()
             return holder['s'], holder['new']
@@ -130,7 +133,7 @@ def run(chk):
             return f"added = gather(candidates[{ax}], argsort(sum_c R_c^2)[-{sel}:])"
         chk.run("C17.R2", f"{RAR}:_rar_step_init.rar_step_true", cfg, go_sel, construct=f"selection[{kind},{'system' if system else 'single'}]")
 
-        if not system:
+        if not system and not het:
             def go_off(get=get, kind=kind):
                 s, new = get()
                 store, sel, start = (('times', SEL_T, K('nt_start')) if kind == 'ode' else ('omega', SEL_X, K('n_start')))
@@ -149,6 +152,15 @@ def run(chk):
             holder['new'] = s.step_true()
         return holder['s'], holder['new']
 
+    holder_het = {}
+
+    def get_ns_het(holder=holder_het):
+        if 's' not in holder:
+            s = setup('nonstatio', het=True)
+            holder['s'] = s
+            holder['new'] = s.step_true()
+        return holder['s'], holder['new']
+
     holder_sys = {}
 
     def get_ns_sys(holder=holder_sys):
@@ -158,8 +170,8 @@ def run(chk):
             holder['new'] = s.step_true()
         return holder['s'], holder['new']
 
-    def go_ns_sel(system=False):
-        s, new = get_ns_sys() if system else get_ns()
+    def go_ns_sel(system=False, het=False):
+        s, new = get_ns_sys() if system else (get_ns_het() if het else get_ns())
         d = s.d
         tpt = AT((1,), np.array([Poly.atom(('T', frozenset({'S_t'})))], dtype=object))
         xpt = AT((d,), np.array([Poly.atom(('X', j, frozenset({'S_x'}))) for j in range(d)], dtype=object))
@@ -191,6 +203,8 @@ def run(chk):
             construct="selection[nonstatio,single]")
     chk.run("C17.R2", f"{RAR}:_rar_step_init.rar_step_true", {"generator": "nonstatio", "loss": "system"}, (lambda: go_ns_sel(system=True)),
             construct="selection[nonstatio,system]")
+    chk.run("C17.R2", f"{RAR}:_rar_step_init.rar_step_true", {"generator": "nonstatio", "loss": "single", "heterogeneous_parameter": "nu"},
+            (lambda: go_ns_sel(het=True)), construct="selection[nonstatio,single,heterogeneous]")
 
     def go_ns_off():
         s, new = get_ns()
